@@ -11,14 +11,18 @@ explicit first-principle tables below — deliberately not derived from the Lean
 import itertools
 import re
 
-BASES = ["int", "long", "double", "bool", "A", "B", "pA", "pB", "pcA"]
+OLD_BASES = ["int", "long", "double", "bool", "A", "B", "pA", "pB", "pcA"]
+# types whose explicit and implicit convertibility differ: `enum class E : int`, `struct Xb { explicit operator bool() const; }`,
+# `struct Xd { explicit operator double() const; }` (types_prelude.h)
+EXPLICIT_ONLY_BASES = ["E", "Xb", "Xd"]
+BASES = OLD_BASES + EXPLICIT_ONLY_BASES
 SHAPES = ["v", "l", "c", "r"]
 CPP_BASE = {"int": "int", "long": "long", "double": "double", "bool": "bool", "A": "tp::A", "B": "tp::B",
-            "pA": "tp::pA", "pB": "tp::pB", "pcA": "tp::pcA"}
+            "pA": "tp::pA", "pB": "tp::pB", "pcA": "tp::pcA", "E": "tp::E", "Xb": "tp::Xb", "Xd": "tp::Xd"}
 KINDS_DIRECT = ["fn", "ptrfun", "fobj", "fobjc", "lam", "lammut"]
 MQS = ["n", "c", "v", "cv"]
 KINDS_MEM = ["mem:%s:%s" % (o, q) for o in "oc" for q in MQS]
-ROUTES = ["slot", "connect", "sigconn"]
+ROUTES = ["slot", "connect", "sigconn", "accum"]
 ALL_PARAMS = ["%s:%s" % (b, s) for b in BASES for s in SHAPES]
 SIG_RETS = ["void"] + ["%s:v" % b for b in BASES]
 FN_RETS = ["void"] + ["%s:%s" % (b, s) for b in BASES for s in "vlc"]
@@ -28,8 +32,16 @@ EXPRS = ["%s:%s" % (b, c) for b in BASES for c in ("l", "cl", "x", "cx", "p")]
 # cannot serve as an oracle there):
 #  * binding `const A*&&` to an xvalue/prvalue of type `A*`: similar types are reference-related (CWG 2352); clang++-14
 #    creates the temporary the standard asks for, g++-12 rejects.  Both reject the lvalue / const cases.
+#  * `static_cast<const bool&>(xb)` / `static_cast<bool&&>(xb)` for a class with `explicit operator bool()` (and the
+#    same with double): [over.match.ref] makes the explicit conversion function a candidate for the direct reference
+#    initialisation; clang++-14 accepts, g++-12 rejects.  Both accept `static_cast<bool>(xb)` and reject every
+#    implicit use.
 def excluded_pair(param, expr_base, expr_is_nonconst_rvalue):
     return param == "pcA:r" and expr_base == "pA" and expr_is_nonconst_rvalue
+
+
+def excluded_cast_pair(param, expr_base):
+    return (param in ("bool:c", "bool:r") and expr_base == "Xb") or (param in ("double:c", "double:r") and expr_base == "Xd")
 
 
 def cpp_type(tok):
@@ -124,6 +136,8 @@ def cpp(p):
         stmt = "sigc::slot<%s> s = %s;" % (sg, fun)
     elif p.route == "connect":
         stmt = "sigc::signal<%s> sg; sg.connect(%s);" % (sg, fun)
+    elif p.route == "accum":
+        stmt = "sigc::signal<%s>::accumulated<tp::Acc> sg; sg.connect(%s);" % (sg, fun)
     elif p.route == "sigconn":
         if k == "fn":
             stmt = "sigc::signal<%s> sg; sigc::signal_connect(sg, &f);" % sg
@@ -155,7 +169,9 @@ def tu(probes, prelude="types_prelude.h"):
 # --------------------------------------------------------------------------------------
 # The monitor: the statement of C05 on one probe, from first principles
 # --------------------------------------------------------------------------------------
-# "standard implicit conversions" between the (cv-unqualified) object types of the universe, as an explicit table:
+# "standard implicit conversions" between the (cv-unqualified) object types of the universe, as an explicit table.
+# The scoped enumeration E and the classes Xb / Xd (explicit conversion functions only) convert implicitly to
+# themselves and to nothing else; nothing converts implicitly to them.
 ARITH = ("int", "long", "double", "bool")
 CONVERTIBLE = set()
 for _a in BASES:
@@ -167,6 +183,9 @@ for _p in ("pA", "pB", "pcA"):
     CONVERTIBLE.add((_p, "bool"))                      # boolean conversion of a pointer
 CONVERTIBLE.add(("B", "A"))                            # derived to base (copy of the base subobject)
 CONVERTIBLE.update({("pB", "pA"), ("pB", "pcA"), ("pA", "pcA")})   # derived-to-base pointer, added const
+# conversions that exist only *explicitly* (static_cast / direct-initialisation); not "standard implicit conversions":
+EXPLICIT_ONLY = {("E", a) for a in ARITH} | {(a, "E") for a in ARITH} | {("Xb", "bool"), ("Xd", "double")}
+assert not (EXPLICIT_ONLY & CONVERTIBLE)
 SAME_OR_DERIVED_OBJECT = {(b, b) for b in BASES} | {("B", "A")}    # (argument type, reference target type)
 
 
@@ -343,7 +362,9 @@ def c20_tu(cases):
     the emitters' `call_type` is private).  Each case: the model's types against the code's, and — the monitor —
     the code's own two types against each other."""
     out = ["#include <sigc++/sigc++.h>", "#include <type_traits>",
-           "namespace tp { struct A { int a; }; struct B : A { int b; }; using pA = A*; using pB = B*; using pcA = const A*; }",
+           "namespace tp { struct A { int a; }; struct B : A { int b; }; using pA = A*; using pB = B*; using pcA = const A*; "
+           "enum class E : int { e0 = 3, e1 = 7 }; struct Xb { explicit operator bool() const; }; "
+           "struct Xd { explicit operator double() const; }; }",
            "struct Acc { using result_type = int; template<typename I> int operator()(I, I) const { return 0; } };"]
     marks = {}
     for i, c in enumerate(cases):
